@@ -196,6 +196,18 @@ func (qt *quotaTopology) checkParentQuotaInfo(quotaName, parentName string) erro
 		if !parentInfo.IsParent {
 			return fmt.Errorf("%v has parentName %v but the parentQuotaInfo's IsParent is false", quotaName, parentName)
 		}
+		// the parent must not be the quota itself or one of its descendants, otherwise the tree gets a cycle
+		ancestor := parentName
+		for i := 0; i <= len(qt.quotaInfoMap) && ancestor != extension.RootQuotaName; i++ {
+			if ancestor == quotaName {
+				return fmt.Errorf("%v has parentName %v which is itself or one of its descendants", quotaName, parentName)
+			}
+			ancestorInfo, ok := qt.quotaInfoMap[ancestor]
+			if !ok {
+				break
+			}
+			ancestor = ancestorInfo.ParentName
+		}
 	}
 	return nil
 }
